@@ -50,7 +50,13 @@ fn parse_ops(s: &str) -> Option<Vec<Op>> {
         return Some(vec![]);
     }
     s.split(',')
-        .map(|t| if t == "g" { Some(Op::Get) } else { t.strip_prefix('s')?.parse().ok().map(Op::Store) })
+        .map(|t| {
+            if t == "g" {
+                Some(Op::Get)
+            } else {
+                t.strip_prefix('s')?.parse().ok().map(Op::Store)
+            }
+        })
         .collect()
 }
 
@@ -75,7 +81,10 @@ fn run_ops(ops: &[Op]) -> (Option<(String, String)>, (usize, usize)) {
     for (i, op) in ops.iter().enumerate() {
         let mut fail = |class: &str, what: String| {
             if bad.is_none() {
-                bad = Some((class.to_string(), format!("step {i} ({}): {what}", op_str(op))));
+                bad = Some((
+                    class.to_string(),
+                    format!("step {i} ({}): {what}", op_str(op)),
+                ));
             }
         };
         match op {
@@ -94,12 +103,19 @@ fn run_ops(ops: &[Op]) -> (Option<(String, String)>, (usize, usize)) {
                 if got != want {
                     fail(
                         "C13:not-oldest-first",
-                        format!("get() = {:?}, oldest held cookie is {:?}", got.as_ref().map(|c| common::hex(&c[..c.len().min(8)])), want.as_ref().map(|c| common::hex(&c[..c.len().min(8)]))),
+                        format!(
+                            "get() = {:?}, oldest held cookie is {:?}",
+                            got.as_ref().map(|c| common::hex(&c[..c.len().min(8)])),
+                            want.as_ref().map(|c| common::hex(&c[..c.len().min(8)]))
+                        ),
                     );
                 }
                 if let Some(c) = got {
                     if c.len() >= 8 && !yielded.insert(c.clone()) {
-                        fail("C13:cookie-reused", format!("cookie {} yielded twice", common::hex(&c[..8])));
+                        fail(
+                            "C13:cookie-reused",
+                            format!("cookie {} yielded twice", common::hex(&c[..8])),
+                        );
                     }
                 }
             }
@@ -108,14 +124,41 @@ fn run_ops(ops: &[Op]) -> (Option<(String, String)>, (usize, usize)) {
         if held.len() > 8 || held != model.iter().cloned().collect::<Vec<_>>() {
             fail(
                 "C13:stash-contents",
-                format!("stash holds {} cookies {:?}, model {:?}", held.len(), held.iter().map(|c| common::hex(&c[..c.len().min(8)])).collect::<Vec<_>>(), model.iter().map(|c| common::hex(&c[..c.len().min(8)])).collect::<Vec<_>>()),
+                format!(
+                    "stash holds {} cookies {:?}, model {:?}",
+                    held.len(),
+                    held.iter()
+                        .map(|c| common::hex(&c[..c.len().min(8)]))
+                        .collect::<Vec<_>>(),
+                    model
+                        .iter()
+                        .map(|c| common::hex(&c[..c.len().min(8)]))
+                        .collect::<Vec<_>>()
+                ),
             );
         }
-        if stash.len() != model.len() || stash.gap() as usize != 8 - model.len() || stash.is_empty() != model.is_empty() {
-            fail("C13:stash-contents", format!("len()={} gap()={} but {} cookies are held", stash.len(), stash.gap(), model.len()));
+        if stash.len() != model.len()
+            || stash.gap() as usize != 8 - model.len()
+            || stash.is_empty() != model.is_empty()
+        {
+            fail(
+                "C13:stash-contents",
+                format!(
+                    "len()={} gap()={} but {} cookies are held",
+                    stash.len(),
+                    stash.gap(),
+                    model.len()
+                ),
+            );
         }
         if sp::dead_slot_bytes(&stash) != 0 {
-            fail("C13:stash-contents", format!("{} bytes of consumed/evicted cookies still kept in unused slots", sp::dead_slot_bytes(&stash)));
+            fail(
+                "C13:stash-contents",
+                format!(
+                    "{} bytes of consumed/evicted cookies still kept in unused slots",
+                    sp::dead_slot_bytes(&stash)
+                ),
+            );
         }
     }
     (bad, sp::ring(&stash))
@@ -140,7 +183,11 @@ fn part_a(ctx: &Ctx) {
                 let (bad, ring) = run_ops(&h2);
                 tr += 1;
                 if let Some((class, what)) = bad {
-                    ctx.violation(&class, what, format!("A|{}", h2.iter().map(op_str).collect::<Vec<_>>().join(",")));
+                    ctx.violation(
+                        &class,
+                        what,
+                        format!("A|{}", h2.iter().map(op_str).collect::<Vec<_>>().join(",")),
+                    );
                 }
                 if !seen.contains_key(&ring) {
                     seen.insert(ring, h2.clone());
@@ -156,9 +203,19 @@ fn part_a(ctx: &Ctx) {
     ctx.set("a1_ring_states", seen.len() as u64);
     ctx.set("a1_bfs_depth", depth);
     // A2: all sequences
-    let (n2, n4) = if ctx.quick() { (14usize, 7usize) } else { (18, 10) };
+    let (n2, n4) = if ctx.quick() {
+        (14usize, 7usize)
+    } else {
+        (18, 10)
+    };
     let full = Mutex::new((0u64, 0u64, 0u64)); // overflow stores, empty gets, sequences
-    for (alpha, n) in [(vec![Op::Get, Op::Store(9)], n2), (vec![Op::Get, Op::Store(0), Op::Store(9), Op::Store(1024)], n4)] {
+    for (alpha, n) in [
+        (vec![Op::Get, Op::Store(9)], n2),
+        (
+            vec![Op::Get, Op::Store(0), Op::Store(9), Op::Store(1024)],
+            n4,
+        ),
+    ] {
         for len in 1..=n {
             let total = common::pow(alpha.len(), len);
             common::par_for(total, 4096, |x| {
@@ -166,7 +223,11 @@ fn part_a(ctx: &Ctx) {
                 let ops: Vec<Op> = w.iter().map(|i| alpha[*i]).collect();
                 let (bad, _) = run_ops(&ops);
                 if let Some((class, what)) = bad {
-                    ctx.violation(&class, what, format!("A|{}", ops.iter().map(op_str).collect::<Vec<_>>().join(",")));
+                    ctx.violation(
+                        &class,
+                        what,
+                        format!("A|{}", ops.iter().map(op_str).collect::<Vec<_>>().join(",")),
+                    );
                 }
                 // vacuity: does the sequence overflow the ring / read from empty?
                 let mut held = 0i32;
@@ -274,12 +335,26 @@ fn parse_step(t: &str) -> Option<Step> {
         (t, Dup::No)
     };
     if body == "L" || body == "S" {
-        return Some(Step { kind: if body == "L" { Kind::Lost } else { Kind::Server }, k: 0, size: 0, dup });
+        return Some(Step {
+            kind: if body == "L" {
+                Kind::Lost
+            } else {
+                Kind::Server
+            },
+            k: 0,
+            size: 0,
+            dup,
+        });
     }
     let n = body.find(|c: char| c.is_ascii_digit())?;
     let kind = KINDS.iter().find(|(_, s)| *s == &body[..n])?.0;
     let (k, size) = body[n..].split_once('x')?;
-    Some(Step { kind, k: k.parse().ok()?, size: size.parse().ok()?, dup })
+    Some(Step {
+        kind,
+        k: k.parse().ok()?,
+        size: size.parse().ok()?,
+        dup,
+    })
 }
 fn steps_str(s: &[Step]) -> String {
     s.iter().map(step_str).collect::<Vec<_>>().join(",")
@@ -297,7 +372,10 @@ struct ReqView {
 fn view(rig: &Rig, req: &[u8]) -> Result<ReqView, String> {
     let (fields, end) = walk(req, 48);
     if end != req.len() {
-        return Err(format!("trailing bytes after extension fields at {end} of {}", req.len()));
+        return Err(format!(
+            "trailing bytes after extension fields at {end} of {}",
+            req.len()
+        ));
     }
     let cookies: Vec<&Field> = fields.iter().filter(|f| f.ty == T_COOKIE).collect();
     if cookies.len() != 1 {
@@ -306,17 +384,29 @@ fn view(rig: &Rig, req: &[u8]) -> Result<ReqView, String> {
     if fields.iter().filter(|f| f.ty == T_UID).count() != 1 {
         return Err("no single unique identifier field".into());
     }
-    let auth_off = fields.iter().find(|f| f.ty == T_AUTH).map(|f| f.off).ok_or("no authenticator")?;
+    let auth_off = fields
+        .iter()
+        .find(|f| f.ty == T_AUTH)
+        .map(|f| f.off)
+        .ok_or("no authenticator")?;
     if open_at(&*rig.c2s, req, auth_off).is_none() {
         return Err("authenticator does not verify under C2S".into());
     }
-    if cookies[0].off > auth_off || fields.iter().any(|f| f.ty == T_PLACEHOLDER && f.off > auth_off) {
+    if cookies[0].off > auth_off
+        || fields
+            .iter()
+            .any(|f| f.ty == T_PLACEHOLDER && f.off > auth_off)
+    {
         return Err("cookie or placeholder after the authenticator".into());
     }
     Ok(ReqView {
         cookie: cookies[0].body.clone(),
         cookie_body_len: cookies[0].body.len(),
-        placeholders: fields.iter().filter(|f| f.ty == T_PLACEHOLDER).map(|f| f.body.len()).collect(),
+        placeholders: fields
+            .iter()
+            .filter(|f| f.ty == T_PLACEHOLDER)
+            .map(|f| f.body.len())
+            .collect(),
         len: req.len(),
         slot: pad4(cookies[0].len),
     })
@@ -352,12 +442,20 @@ fn fifo_push(before: &[Vec<u8>], add: &[Vec<u8>]) -> (Vec<Vec<u8>>, u64) {
 }
 
 fn short(cs: &[Vec<u8>]) -> Vec<String> {
-    cs.iter().map(|c| common::hex(&c[..c.len().min(8)])).collect()
+    cs.iter()
+        .map(|c| common::hex(&c[..c.len().min(8)]))
+        .collect()
 }
 
 /// Build the datagram for a harness answer kind; returns it with the cookies it carries
 /// (as the client would store them).
-fn harness_answer(rig: &Rig, x: &Exchange, poll_byte: u8, step: &Step, tag: &mut u64) -> (Vec<u8>, Vec<Vec<u8>>) {
+fn harness_answer(
+    rig: &Rig,
+    x: &Exchange,
+    poll_byte: u8,
+    step: &Step,
+    tag: &mut u64,
+) -> (Vec<u8>, Vec<Vec<u8>>) {
     let v5 = rig.cfg.v5();
     let uid = x.uid.unwrap_or([0; 32]);
     // header fields per kind: (mode, stratum, poll, v5 flags, v4 refid)
@@ -400,22 +498,48 @@ fn harness_answer(rig: &Rig, x: &Exchange, poll_byte: u8, step: &Step, tag: &mut
 
 /// `steps` are the enumerated polls; afterwards `drain` further polls are each answered by a
 /// harness time answer with one fresh cookie, so that every cookie held gets sent.
-async fn run_b(cfg: Cfg, fill: usize, steps: &[Step], drain: usize, caps: Option<&Mutex<CapTable>>) -> BOut {
+async fn run_b(
+    cfg: Cfg,
+    fill: usize,
+    steps: &[Step],
+    drain: usize,
+    caps: Option<&Mutex<CapTable>>,
+) -> BOut {
     let v5 = cfg.v5();
     let mut rig = Rig::nts(cfg, fill);
     let mut sent: HashSet<Vec<u8>> = HashSet::new();
-    let mut out = BOut { violations: vec![], sends: 0, resets_empty: 0, resets_other: 0, accepted: 0, evictions: 0, transitions: 0, extra_stored: 0, extra_not_stored: 0, dup_deliveries: 0 };
+    let mut out = BOut {
+        violations: vec![],
+        sends: 0,
+        resets_empty: 0,
+        resets_other: 0,
+        accepted: 0,
+        evictions: 0,
+        transitions: 0,
+        extra_stored: 0,
+        extra_not_stored: 0,
+        dup_deliveries: 0,
+    };
     let mut tag = 1u64 << 40;
     let trace = format!("B|{}|{fill}|{drain}|{}", cfg.name(), steps_str(steps));
     macro_rules! fail {
         ($class:expr, $($arg:tt)*) => { out.violations.push(($class.to_string(), format!($($arg)*))) };
     }
-    let drain_step = Step { kind: Kind::Time, k: 1, size: 104, dup: Dup::No };
+    let drain_step = Step {
+        kind: Kind::Time,
+        k: 1,
+        size: 104,
+        dup: Dup::No,
+    };
     let total = steps.len() + drain;
     // datagram to deliver again after the next request went out
     let mut late: Option<(Vec<u8>, Vec<Vec<u8>>)> = None;
     'polls: for i in 0..total {
-        let step = if i < steps.len() { steps[i] } else { drain_step };
+        let step = if i < steps.len() {
+            steps[i]
+        } else {
+            drain_step
+        };
         out.transitions += 1;
         let held: Vec<Vec<u8>> = rig.key().cookies.unwrap_or_default();
         let res = rig.timer();
@@ -429,7 +553,11 @@ async fn run_b(cfg: Cfg, fill: usize, steps: &[Step], drain: usize, caps: Option
                     if k.reach == 0 && k.tries >= 3 {
                         out.resets_other += 1;
                     } else {
-                        fail!("C13:reset-with-cookies", "poll {i}: Reset although {} cookies are held and the source is reachable", held.len());
+                        fail!(
+                            "C13:reset-with-cookies",
+                            "poll {i}: Reset although {} cookies are held and the source is reachable",
+                            held.len()
+                        );
                     }
                 }
                 break;
@@ -439,13 +567,19 @@ async fn run_b(cfg: Cfg, fill: usize, steps: &[Step], drain: usize, caps: Option
                 break;
             }
             o => {
-                fail!("C13:request-malformed", "poll {i}: unexpected timer result {o:?}");
+                fail!(
+                    "C13:request-malformed",
+                    "poll {i}: unexpected timer result {o:?}"
+                );
                 break;
             }
         };
         out.sends += 1;
         if held.is_empty() {
-            fail!("C13:send-without-cookie", "poll {i}: a request was sent although no cookie is held");
+            fail!(
+                "C13:send-without-cookie",
+                "poll {i}: a request was sent although no cookie is held"
+            );
             break;
         }
         let v = match view(&rig, &req) {
@@ -458,9 +592,14 @@ async fn run_b(cfg: Cfg, fill: usize, steps: &[Step], drain: usize, caps: Option
         let oldest = &held[0];
         let c = oldest.len();
         // the cookie field carries the cookie followed by zero padding only
-        let carried_ok = v.cookie.len() >= c && v.cookie[..c] == oldest[..] && v.cookie[c..].iter().all(|b| *b == 0) && v.cookie.len() < c + 16;
+        let carried_ok = v.cookie.len() >= c
+            && v.cookie[..c] == oldest[..]
+            && v.cookie[c..].iter().all(|b| *b == 0)
+            && v.cookie.len() < c + 16;
         if !carried_ok {
-            let pos = held.iter().position(|m| v.cookie.len() >= m.len() && v.cookie[..m.len()] == m[..]);
+            let pos = held
+                .iter()
+                .position(|m| v.cookie.len() >= m.len() && v.cookie[..m.len()] == m[..]);
             fail!(
                 "C13:not-oldest-first",
                 "poll {i}: request carries cookie {}.. which is {} (oldest held is {}..)",
@@ -473,32 +612,62 @@ async fn run_b(cfg: Cfg, fill: usize, steps: &[Step], drain: usize, caps: Option
             );
         }
         if !sent.insert(v.cookie[..c.min(v.cookie.len())].to_vec()) {
-            fail!("C13:cookie-reused", "poll {i}: cookie {}.. was already sent in an earlier request", common::hex(&v.cookie[..v.cookie.len().min(8)]));
+            fail!(
+                "C13:cookie-reused",
+                "poll {i}: cookie {}.. was already sent in an earlier request",
+                common::hex(&v.cookie[..v.cookie.len().min(8)])
+            );
         }
         let after_take: Vec<Vec<u8>> = rig.key().cookies.unwrap_or_default();
         if after_take[..] != held[1..] {
-            fail!("C13:stash-contents", "poll {i}: after taking the oldest cookie the stash holds {:?}, expected {:?}", short(&after_take), short(&held[1..]));
+            fail!(
+                "C13:stash-contents",
+                "poll {i}: after taking the oldest cookie the stash holds {:?}, expected {:?}",
+                short(&after_take),
+                short(&held[1..])
+            );
             break;
         }
         let missing = 8 - after_take.len();
         let requested = v.placeholders.len() + 1;
         if requested > missing {
-            fail!("C13:request-count", "poll {i}: asks for {requested} new cookies but only {missing} are missing ({} held after taking one)", after_take.len());
+            fail!(
+                "C13:request-count",
+                "poll {i}: asks for {requested} new cookies but only {missing} are missing ({} held after taking one)",
+                after_take.len()
+            );
         }
         if v.placeholders.iter().any(|p| *p != v.cookie_body_len) {
-            fail!("C13:request-malformed", "poll {i}: placeholder bodies {:?} differ from the cookie body length {}", v.placeholders, v.cookie_body_len);
+            fail!(
+                "C13:request-malformed",
+                "poll {i}: placeholder bodies {:?} differ from the cookie body length {}",
+                v.placeholders,
+                v.cookie_body_len
+            );
         }
         if v.len > 1024 {
-            fail!("C13:request-malformed", "poll {i}: request is {} bytes", v.len);
+            fail!(
+                "C13:request-malformed",
+                "poll {i}: request is {} bytes",
+                v.len
+            );
         }
         if requested < missing {
             let full = v.len + (missing - requested) * v.slot;
             if full <= 512 {
-                fail!("C13:request-count", "poll {i}: asks for {requested} of {missing} missing cookies although the full request would only be {full} bytes (cookie {c} B)");
+                fail!(
+                    "C13:request-count",
+                    "poll {i}: asks for {requested} of {missing} missing cookies although the full request would only be {full} bytes (cookie {c} B)"
+                );
             }
         }
         if let Some(t) = caps {
-            t.lock().unwrap().entry((v5, c)).or_default().entry((missing, requested)).or_insert((trace.clone(), v.len, v.slot));
+            t.lock()
+                .unwrap()
+                .entry((v5, c))
+                .or_default()
+                .entry((missing, requested))
+                .or_insert((trace.clone(), v.len, v.slot));
         }
         // ---- deliveries for this poll: [late duplicate of the previous datagram], the answer, [duplicate]
         let x = rig.exchanges.last().cloned().unwrap();
@@ -506,7 +675,11 @@ async fn run_b(cfg: Cfg, fill: usize, steps: &[Step], drain: usize, caps: Option
             Kind::Lost => None,
             Kind::Server => x.genuine.clone().map(|g| {
                 // learn the delivered cookies with the harness-side walker
-                let cookies = open_all(&*rig.s2c, &g).into_iter().next().and_then(|(_, pt)| plaintext_cookies(&pt)).unwrap_or_default();
+                let cookies = open_all(&*rig.s2c, &g)
+                    .into_iter()
+                    .next()
+                    .and_then(|(_, pt)| plaintext_cookies(&pt))
+                    .unwrap_or_default();
                 (g, cookies)
             }),
             _ => Some(harness_answer(&rig, &x, req[2], &step, &mut tag)),
@@ -539,7 +712,13 @@ async fn run_b(cfg: Cfg, fill: usize, steps: &[Step], drain: usize, caps: Option
                 out.accepted += 1;
                 out.evictions += ev;
                 if after != pushed {
-                    fail!("C13:stash-contents", "poll {i} {what} {}: stash holds {:?}, expected the newest <= 8 in arrival order {:?}", step_str(&step), short(&after), short(&pushed));
+                    fail!(
+                        "C13:stash-contents",
+                        "poll {i} {what} {}: stash holds {:?}, expected the newest <= 8 in arrival order {:?}",
+                        step_str(&step),
+                        short(&after),
+                        short(&pushed)
+                    );
                     break 'polls;
                 }
             } else {
@@ -552,11 +731,21 @@ async fn run_b(cfg: Cfg, fill: usize, steps: &[Step], drain: usize, caps: Option
                     out.extra_stored += 1;
                     out.evictions += ev;
                 } else {
-                    fail!("C13:stash-contents", "poll {i} {what} {}: stash holds {:?}, expected either unchanged {:?} or all delivered cookies appended {:?}", step_str(&step), short(&after), short(&before), short(&pushed));
+                    fail!(
+                        "C13:stash-contents",
+                        "poll {i} {what} {}: stash holds {:?}, expected either unchanged {:?} or all delivered cookies appended {:?}",
+                        step_str(&step),
+                        short(&after),
+                        short(&before),
+                        short(&pushed)
+                    );
                     break 'polls;
                 }
                 if what == "answer" && step.kind == Kind::Time {
-                    fail!("C13:machinery", "poll {i}: harness-built authenticated time answer was not accepted ({acts:?})");
+                    fail!(
+                        "C13:machinery",
+                        "poll {i}: harness-built authenticated time answer was not accepted ({acts:?})"
+                    );
                     break 'polls;
                 }
             }
@@ -567,11 +756,19 @@ async fn run_b(cfg: Cfg, fill: usize, steps: &[Step], drain: usize, caps: Option
         let k = rig.key();
         let now_held = k.cookies.clone().unwrap_or_default();
         if now_held.len() > 8 {
-            fail!("C13:stash-contents", "after poll {i}: {} cookies held", now_held.len());
+            fail!(
+                "C13:stash-contents",
+                "after poll {i}: {} cookies held",
+                now_held.len()
+            );
         }
         let obs = rig.src.observe("x".into(), crate::ClockId(7)).nts_cookies;
         if obs != Some(now_held.len()) {
-            fail!("C13:stash-contents", "after poll {i}: observable nts_cookies = {obs:?}, {} held", now_held.len());
+            fail!(
+                "C13:stash-contents",
+                "after poll {i}: observable nts_cookies = {obs:?}, {} held",
+                now_held.len()
+            );
         }
     }
     out
@@ -583,11 +780,24 @@ fn part_b(ctx: &Ctx) {
     let st = |kind, k, size, dup| Step { kind, k, size, dup };
     // (config, choices per poll, enumerated polls, drain polls, label)
     let mut plans: Vec<(Cfg, Vec<Step>, usize, usize, &str)> = Vec::new();
-    let base: Vec<Step> = [st(Kind::Lost, 0, 0, Dup::No), st(Kind::Server, 0, 0, Dup::No)].into_iter().chain((0..=9).map(|k| st(Kind::Time, k, 104, Dup::No))).collect();
-    let sized: Vec<Step> = [st(Kind::Lost, 0, 0, Dup::No), st(Kind::Server, 0, 0, Dup::No)]
-        .into_iter()
-        .chain([16usize, 40, 90, 168, 300, 700].into_iter().flat_map(|s| [1usize, 3, 8, 9].into_iter().map(move |k| st(Kind::Time, k, s, Dup::No))))
-        .collect();
+    let base: Vec<Step> = [
+        st(Kind::Lost, 0, 0, Dup::No),
+        st(Kind::Server, 0, 0, Dup::No),
+    ]
+    .into_iter()
+    .chain((0..=9).map(|k| st(Kind::Time, k, 104, Dup::No)))
+    .collect();
+    let sized: Vec<Step> = [
+        st(Kind::Lost, 0, 0, Dup::No),
+        st(Kind::Server, 0, 0, Dup::No),
+    ]
+    .into_iter()
+    .chain([16usize, 40, 90, 168, 300, 700].into_iter().flat_map(|s| {
+        [1usize, 3, 8, 9]
+            .into_iter()
+            .map(move |k| st(Kind::Time, k, s, Dup::No))
+    }))
+    .collect();
     // answers of every kind, each delivered once / twice in a row / again after the next request
     let mut kinds: Vec<Step> = vec![st(Kind::Lost, 0, 0, Dup::No)];
     for dup in [Dup::No, Dup::Now, Dup::Late] {
@@ -595,7 +805,12 @@ fn part_b(ctx: &Ctx) {
         for k in [1usize, 3, 9] {
             kinds.push(st(Kind::Time, k, 104, dup));
         }
-        for kind in [Kind::KissRate, Kind::KissUnknown, Kind::Stratum17, Kind::WrongMode] {
+        for kind in [
+            Kind::KissRate,
+            Kind::KissUnknown,
+            Kind::Stratum17,
+            Kind::WrongMode,
+        ] {
             for k in [1usize, 3] {
                 kinds.push(st(kind, k, 104, dup));
             }
@@ -607,7 +822,13 @@ fn part_b(ctx: &Ctx) {
         plans.push((Cfg { pv, k512: false }, base.clone(), p_main, 0, "main"));
         plans.push((Cfg { pv, k512: true }, base.clone(), p_512, 0, "k512"));
         plans.push((Cfg { pv, k512: false }, sized.clone(), p_sized, 0, "sizes"));
-        plans.push((Cfg { pv, k512: false }, kinds.clone(), p_kinds, 10, "kinds+dup+drain10"));
+        plans.push((
+            Cfg { pv, k512: false },
+            kinds.clone(),
+            p_kinds,
+            10,
+            "kinds+dup+drain10",
+        ));
     }
     ctx.set("b_answer_kinds_with_dup", kinds.len() as u64);
     for (cfg, choices, polls, drain, label) in &plans {
@@ -621,10 +842,24 @@ fn part_b(ctx: &Ctx) {
             let out = super::block_on_paused(run_b(*cfg, fill, &seq, *drain, Some(&caps)));
             let trace = format!("B|{}|{fill}|{drain}|{}", cfg.name(), steps_str(&seq));
             for (class, what) in &out.violations {
-                ctx.violation(class, format!("[{} fill {fill}] {what}", cfg.name()), trace.clone());
+                ctx.violation(
+                    class,
+                    format!("[{} fill {fill}] {what}", cfg.name()),
+                    trace.clone(),
+                );
             }
             let mut s = stats.lock().unwrap();
-            for (a, b) in s.iter_mut().zip([out.sends, out.resets_empty, out.resets_other, out.accepted, out.evictions, out.transitions, out.extra_stored, out.extra_not_stored, out.dup_deliveries]) {
+            for (a, b) in s.iter_mut().zip([
+                out.sends,
+                out.resets_empty,
+                out.resets_other,
+                out.accepted,
+                out.evictions,
+                out.transitions,
+                out.extra_stored,
+                out.extra_not_stored,
+                out.dup_deliveries,
+            ]) {
                 *a += b;
             }
             drop(s);
@@ -632,7 +867,10 @@ fn part_b(ctx: &Ctx) {
                 ctx.distinct(common::hash_of(&trace));
             }
             if i % 9973 == 11 {
-                ctx.sample(format!("{trace}: {} requests, {} answers accepted, {} cookies evicted", out.sends, out.accepted, out.evictions));
+                ctx.sample(format!(
+                    "{trace}: {} requests, {} answers accepted, {} cookies evicted",
+                    out.sends, out.accepted, out.evictions
+                ));
             }
         });
         let s = stats.lock().unwrap();
@@ -654,11 +892,19 @@ fn part_b(ctx: &Ctx) {
     let mut table = String::new();
     let mut prev: BTreeMap<bool, (usize, usize)> = BTreeMap::new();
     for ((v5, c), pairs) in &caps {
-        let capped: BTreeSet<usize> = pairs.iter().filter(|((m, r), _)| r < m).map(|((_, r), _)| *r).collect();
+        let capped: BTreeSet<usize> = pairs
+            .iter()
+            .filter(|((m, r), _)| r < m)
+            .map(|((_, r), _)| *r)
+            .collect();
         let max_seen = pairs.keys().map(|(_, r)| *r).max().unwrap_or(0);
         let cap = capped.iter().next().copied();
         if capped.len() > 1 {
-            let (t, _, _) = pairs.iter().find(|((m, r), _)| r < m).map(|(_, v)| v.clone()).unwrap();
+            let (t, _, _) = pairs
+                .iter()
+                .find(|((m, r), _)| r < m)
+                .map(|(_, v)| v.clone())
+                .unwrap();
             ctx.violation("C13:request-count", format!("cookie {c} B, v5={v5}: the request count is cut to different values {capped:?} for the same packet geometry"), t);
         }
         if let Some(cap) = cap {
@@ -692,7 +938,9 @@ fn replay(ctx: &Ctx, trace: &str) -> String {
     let parts: Vec<&str> = trace.split('|').collect();
     match parts.as_slice() {
         ["A", ops] => {
-            let Some(ops) = parse_ops(ops) else { return "bad trace".into() };
+            let Some(ops) = parse_ops(ops) else {
+                return "bad trace".into();
+            };
             let (bad, ring) = run_ops(&ops);
             if let Some((class, what)) = &bad {
                 ctx.violation(class, what.clone(), trace.to_string());
@@ -700,15 +948,33 @@ fn replay(ctx: &Ctx, trace: &str) -> String {
             format!("ring={ring:?} discrepancy={:?}", bad.map(|b| b.0))
         }
         ["B", cfg, fill, drain, seq] => {
-            let (Some(cfg), Ok(fill), Ok(drain)) = (Cfg::parse(cfg), fill.parse::<usize>(), drain.parse::<usize>()) else { return "bad trace".into() };
-            let Some(seq) = seq.split(',').filter(|s| !s.is_empty()).map(parse_step).collect::<Option<Vec<_>>>() else { return "bad trace".into() };
+            let (Some(cfg), Ok(fill), Ok(drain)) = (
+                Cfg::parse(cfg),
+                fill.parse::<usize>(),
+                drain.parse::<usize>(),
+            ) else {
+                return "bad trace".into();
+            };
+            let Some(seq) = seq
+                .split(',')
+                .filter(|s| !s.is_empty())
+                .map(parse_step)
+                .collect::<Option<Vec<_>>>()
+            else {
+                return "bad trace".into();
+            };
             let out = super::block_on_paused(run_b(cfg, fill, &seq, drain, None));
             for (class, what) in &out.violations {
                 ctx.violation(class, what.clone(), trace.to_string());
             }
             format!(
                 "sends={} accepted={} evicted={} nontime_or_dup_stored={} not_stored={} violations={:?}",
-                out.sends, out.accepted, out.evictions, out.extra_stored, out.extra_not_stored, out.violations
+                out.sends,
+                out.accepted,
+                out.evictions,
+                out.extra_stored,
+                out.extra_not_stored,
+                out.violations
             )
         }
         _ => "bad trace".into(),
